@@ -57,6 +57,21 @@ def _ddx(t, x, atoms, memo):
         kind, arg = info
         if kind == 'pi' or arg is None:
             return ZERO
+        if kind == 'int':
+            # Leibniz rule; the integrand must not depend on x itself
+            feval, a, b = arg
+            probe = z3.Real('x!probe')
+            if not _iszero(z3.simplify(ddx(feval(probe), x, atoms, {}))):
+                raise Unsupported('integrand depends on the variable of '
+                                  'differentiation')
+            da = ddx(a, x, atoms, memo)
+            db = ddx(b, x, atoms, memo)
+            r = ZERO
+            if not _iszero(db):
+                r = _add(r, feval(b) * db)
+            if not _iszero(da):
+                r = r - feval(a) * da
+            return r
         da = ddx(arg, x, atoms, memo)
         if _iszero(da):
             return ZERO
@@ -161,6 +176,8 @@ def _numeval(t, env, atoms, memo):
                 kind, arg = info
                 if kind == 'pi':
                     return math.pi
+                if kind == 'int':
+                    raise NumEvalError('integral atom')
                 a = ev(arg)
                 try:
                     if kind == 'exp':
